@@ -1,11 +1,16 @@
 import RreModel.Proto
 import RreModel.C04.Spec
+import RreModel.C04.File
 /-
 Driver for C04.
   case := `<stream> <hexseg,hexseg,…> <abstract rule list in prefix notation | ?>`   (see harness/src/bin/c04.rs)
   obs  := `<PR> ;; <PM|=> ;; <P1|=>`  canonical S-expressions
   drv_c04 model  : case       ↦ the observation predicted by the model (`parseRules`, `parseWithModules`, `parseSingleRule`)
   drv_c04 oracle : case | obs ↦ `ok <tags>` iff obs = print (expected rules) for all three entry points, else `fail <what>`
+  family `RF:<layout word>`: the oracle also re-renders the case with `C04.renderCase` (File.lean — the renderer of the
+  whole-file theorems) from the layout word and the abstract rules and requires the text carried by the case to be exactly
+  that rendering (`render-agrees`, else `fail render-differs`); `rf_thm_hyp` = every rule on one line and comment-free, anything
+  between the rules (the layout hypotheses of `parseRules_render` / `parseRules_render_comments`)
 -/
 open Proto C04
 
@@ -386,6 +391,23 @@ def firstDiff (a b : String) : Nat := Id.run do
     i := i + 1
   return i
 
+/-- the `RF` family: the case text must be `renderFile` of (layout word, abstract rules) -/
+def rfTags (c : Case) (rs : List ARule) : Except String (List String) :=
+  if !c.stream.startsWith "RF:" then .ok [] else
+  let word : List Nat := (c.stream.toList.drop 3).map fun ch => ch.toNat - '0'.toNat
+  match renderCase rs word with
+  | none => .error "render-unsupported"
+  | some (text, srcs) =>
+    if text != c.segs.flatten then .error "render-differs"
+    else if srcs.map (fun x => x.1.render) != oddSegs c.segs then .error "render-differs-rule"
+    else
+      let noComments := stripComments text none == text
+      let oneLine := (oddSegs c.segs).all fun s => !s.contains '\n'
+      -- comments BETWEEN rules are covered by `parseRules_render_comments`: only the rule texts must be comment-free
+      let rulesClean := (oddSegs c.segs).all fun s => stripComments s none == s
+      .ok (["render-agrees"] ++ (if rulesClean && oneLine then ["rf_thm_hyp"] else [])
+            ++ (if !noComments then ["rf_comments"] else []) ++ (if !oneLine then ["rf_multiline"] else []))
+
 def oracleLine (line : String) : String :=
   match line.splitOn " | " with
   | [cs, o] =>
@@ -399,7 +421,10 @@ def oracleLine (line : String) : String :=
         match expectedObs ext rs with
         | none => "bad-input date"
         | some e =>
-          if e == obs then joinSp ("ok" :: tagsOf c rs)
+          if e == obs then
+            match rfTags c rs with
+            | .ok ts => joinSp ("ok" :: tagsOf c rs ++ ts)
+            | .error w => s!"fail {w}"
           else
             let parts := obs.splitOn " ;; "
             let eparts := e.splitOn " ;; "
